@@ -101,18 +101,20 @@ class Check(PropertyCheck):
                   "_read_cookie_pairs, _format_pairs with _has_special quoting and ESCAPE) for ALL pair lists and ALL header strings: "
                   "cookie_roundtrip (Representable ps -> parseCookie (formatCookie ps) = ps, by induction over the list), "
                   "parse_yields_representable, request_cookies_view_roundtrip and view_writeback_idempotent (writing the parsed view of ANY "
-                  "Cookie header values back and parsing again gives the same pairs); query_view_roundtrip with urllib's urlencode/parse_qsl "
+                  "Cookie header values back and parsing again gives the same pairs); set_cookie_header_roundtrip and set_cookie_roundtrip for the "
+                  "Set-Cookie grammar (_read_set_cookie_pairs with the expires heuristic, unary attributes, unquoted expires/path) — every "
+                  "representable cookie-with-attributes list written one header per cookie reads back identically; query_view_roundtrip with urllib's urlencode/parse_qsl "
                   "as parameters; multipart encode/decode as implemented (split on --boundary, splitlines, name regex, join) with "
                   "multipart_roundtrip_counterexample (F-C34a). Cookie, Set-Cookie and multipart models tied differentially to cookies.py, "
                   "multipart.py and the real Request/Response views; all six views checked on the real objects by the oracle.")
     level_note = ("PARTIAL: proved = the Cookie-header view (round trip and write-back, all inputs) and the query view modulo the urllib law. "
-                  "NOT proved (model + differential tie + oracle only): the Set-Cookie round trip (_read_set_cookie_pairs with the expires "
-                  "heuristic and comma-separated cookies is modelled and tied, no theorem), the multipart round trip under its guards (only "
+                  "The Cookie-header and Set-Cookie round trips are proved for all inputs (Set-Cookie write-back of arbitrary received headers is not: "
+                  "F-C34f). NOT proved (model + differential tie + oracle only): the multipart round trip under its guards (only "
                   "the counterexample is proved), urlencoded-form and path-component views (urllib parameters; oracle on the real objects only). "
                   "Findings: F-C34a CR/LF in multipart values dropped (encoder's extra blank line is pinned by test_multipart, so the decoder "
                   "cannot be repaired alone), F-C34b multipart keys with a double quote/CR/LF truncated, F-C34c boundary characters that "
                   "urllib.quote escapes, F-C34d path_components write-back collapses empty segments / trailing slash, F-C34e ('','') form "
-                  "pair erased in bare-parameter style, F-C34f Set-Cookie write-back of expires/path values holding ';' ',' or a leading "
+                  "pair erased in bare-parameter style, F-C34g query/path_components write-back replaces the asterisk-form target, F-C34f Set-Cookie write-back of expires/path values holding ';' ',' or a leading "
                   "quote. str.lower() is modelled as ASCII lower-casing; empty path components, empty multipart keys, values containing the "
                   "multipart delimiter and cookie names containing ';' '=' or leading whitespace are not representable in the wire format.")
     technique = "Lean 4 proof (induction over pair lists / header strings) + differential correspondence on cookies.py, multipart.py and the views"
@@ -120,7 +122,12 @@ class Check(PropertyCheck):
             "surrogate-escaped bytes for each view: request cookies, response cookies with attributes (expires/path/unary), urlencoded form "
             "(with and without an existing body), multipart form (10 boundaries incl. browser styles and ones urllib.quote changes; values with "
             "CR/LF, quotes, boundary look-alikes), query and path components; plus raw Cookie / Set-Cookie header strings and raw multipart "
-            "bodies for the parsers. distinct = distinct case; non-trivial = non-empty list/header.")
+            "bodies for the parsers; wb cases: request targets of every URL-significant shape (leading // and ///, :// inside, ;params, "
+            "#fragment, a second ?, empty, *, %2F, non-ASCII, surrogate-escaped bytes) on which the query and path_components views are read "
+            "against an independent reading of the target and every view (query, path_components, cookies, urlencoded_form, multipart_form) is "
+            "written back with its current value, comparing the target's meaning (segments, parameters, query pairs, fragment), host, port, "
+            "scheme, authority and Host header before and after; the same targets under set-then-get of generated pairs. "
+            "distinct = distinct case; non-trivial = non-empty list/header.")
     budget = {"quick": 8000, "thorough": 250000}
     time_budget = {"quick": 30, "thorough": 420}
     fingerprints = ["mitmproxy.net.http.cookies:_read_until", "mitmproxy.net.http.cookies:_read_quoted_string", "mitmproxy.net.http.cookies:_read_key",
